@@ -827,8 +827,16 @@ func main() {
 		gens[i] = &gen{tier: *tier, prop: *prop}
 		gens[i].pf("// Code generated by e2/shapes/gen; DO NOT EDIT.\n\npackage shard%02d\n\nimport (\n\t\"reflect\"\n\t\"unsafe\"\n\n\t\"github.com/fogfish/golem/hseq\"\n\t\"github.com/fogfish/golem/optics\"\n\trt %q\n)\n\nvar _ = reflect.TypeOf\nvar _ unsafe.Pointer\nvar _ = hseq.New[int]\nvar _ optics.Lens[int, int]\n\n", i, *rtPath)
 	}
-	for i, sh := range all {
-		gens[i%*shards].emit(sh)
+	n := 0
+	for _, sh := range all {
+		// the request tables of C02 do not depend on the layout the way C01's byte checks do: in the quick
+		// tier every fourth 3-field flat shape gets them (all of them in thorough)
+		if *prop == "C02" && *tier == "quick" && sh.family == "flat" && len(sh.root.fields) == 3 && n%4 != 0 {
+			n++
+			continue
+		}
+		gens[n%*shards].emit(sh)
+		n++
 	}
 	for i, g := range gens {
 		dir := filepath.Join(*out, fmt.Sprintf("shard%02d", i))
